@@ -456,12 +456,23 @@ func ruleEnv(c *Ctx) {
 		return out
 	}
 	got := map[string]bool{}
+	newVars := map[string]bool{}
 	for _, en := range entries {
 		got[en.key] = true
 		exp, known := want[en.key]
 		construct := "env " + en.key
 		if !known {
-			c.R.Violate("R-TABLE/env", p.Pos(en.call), f.Name, construct, "the client passes an environment variable that is not in the reference table of control variables", nil)
+			// a control variable the table does not list yet: what can go wrong
+			// with it without looking at its meaning is that a host which carries
+			// it (because it is itself a plugin) hands it on - so it is accepted
+			// when hostEnv provably never inherits it, like the two feature
+			// variables of the table
+			if ok, _ := p.hostEnvOnlyTested(en.key); ok && !strings.HasPrefix(en.key, "?") && en.key != "<cookie>" {
+				newVars[en.key] = true
+				c.R.Hold("R-TABLE/env", p.Pos(en.call), f.Name, construct, "a control variable outside the reference table, set under {"+strings.Join(relevant(en.guards), ",")+"}; hostEnv never inherits an entry of that name", true)
+				continue
+			}
+			c.R.Violate("R-TABLE/env", p.Pos(en.call), f.Name, construct, "the client passes an environment variable that is not in the reference table of control variables, and the inherited host environment is not provably free of it: a host that carries the variable (it may itself be a plugin) hands its own value to plugins of clients that never asked for the feature", nil)
 			continue
 		}
 		gs := relevant(en.guards)
@@ -626,7 +637,7 @@ func ruleEnv(c *Ctx) {
 	}
 	sort.Strings(sk)
 	for _, k := range sk {
-		if _, ok := want[k]; ok && got[k] {
+		if _, ok := want[k]; (ok || newVars[k]) && got[k] {
 			c.R.Hold("R-TABLE/env", strings.SplitN(serverKeys[k], " ", 2)[0], "Serve", "server reads "+k, "the client writes this variable", false)
 		} else {
 			c.R.Violate("R-TABLE/env", strings.SplitN(serverKeys[k], " ", 2)[0], "Serve", "server reads "+k, "the plugin acts on an environment variable the client never sets", nil)
